@@ -291,6 +291,7 @@ def run(prog: Program, col: Collector, tier: str, refs: Optional[Refs] = None, c
     # ---------------------------------------------------------------- R09.4
     col.rule("R09.4", "every product-reduction over plates in a function with plate scales is followed by the scale of the same plates", floor=2)
     n4 = 0
+    n4b = 0
     for f in prog.functions_in(prog.modules["funsor.sum_product"]):
         if "plate_to_scale" not in f.params or isinstance(f.node, ast.Lambda) or f.name == "sum_product":
             continue
@@ -323,11 +324,23 @@ def run(prog: Program, col: Collector, tier: str, refs: Optional[Refs] = None, c
                     iters = [norm(g.iter) for x in ast.walk(nxt) if isinstance(x, (ast.ListComp, ast.GeneratorExp)) for g in x.generators]
                     pows = [x for x in ast.walk(nxt) if isinstance(x, ast.Call) and norm(x.func) == "pow_op" and x.args and norm(x.args[0]) == tgt]
                     ok = plates in iters and bool(pows)
+                    # several plates are reduced at once: the factor is raised to the PRODUCT of their scales ((f^a)^b = f^(a*b))
+                    folds = [x for x in ast.walk(nxt) if isinstance(x, ast.Call) and norm(x.func).rsplit(".", 1)[-1] == "reduce" and len(x.args) >= 2
+                             and not isinstance(x.func, ast.Attribute) or (isinstance(x, ast.Call) and norm(x.func) == "functools.reduce" and len(x.args) >= 2)]
+                    for fo in folds:
+                        n4b += 1
+                        col.check((refs.resolve(fo.args[0]) or norm(fo.args[0])).endswith("ops.mul") or norm(fo.args[0]) == "ops.mul", f"{f.fq}::{norm(fo)[:50]}",
+                                  "the scales of the plates reduced together are multiplied",
+                                  f"`{norm(fo)[:50]}` combines the scales of several plates with `{norm(fo.args[0])}`: a factor product-reduced over plates of scales a and b is "
+                                  "(f^a)^b = f^(a*b), so the scales multiply (with scales 2 and 3 the exponent is 6, not 5)", f.loc(fo))
                 col.check(ok, f"{f.fq}::{norm(c)[:60]}", f"followed by `if plate_to_scale:` raising `{tgt}` to the scales of `{plates}`",
                           f"`{norm(c)[:60]}` product-reduces over the plates `{plates}` and the result is "
                           + ("stored / returned directly" if tgt is None else "not raised to the scales of those plates in the next step")
                           + ": a sub-sampled plate (plate_to_scale) then contributes the product over the observed indices only, not its scale-th power", f.loc(c))
     col.cur.analysed["product_reductions_over_plates"] = n4
+    col.cur.analysed["folds_of_plate_scales"] = n4b
+    if n4b < 2:
+        raise AnalysisError(f"R09.4: only {n4b} folds of plate scales found (2 confirmed by hand: both arms of partial_sum_product)")
 
     # ---------------------------------------------------------------- R09.5
     col.rule("R09.5", "sum_product multiplies the partial results starting from the unit of prod_op and forwards all its arguments", floor=2)
@@ -362,6 +375,15 @@ def run(prog: Program, col: Collector, tier: str, refs: Optional[Refs] = None, c
                 scope = lp if isinstance(lp, ast.For) else f.module.parent.get(lp)
                 if any(isinstance(y, ast.Attribute) and y.attr in ("inputs", "input_vars") and isinstance(y.value, ast.Name) and y.value.id == lp.target.id for y in ast.walk(scope)):
                     term_seqs.add(lp.iter.id)
+        # parameters whose elements are terms, however they are walked (`for i, t in enumerate(P)`, `P[i].inputs`)
+        term_params = set(term_seqs)
+        for lp in ast.walk(f.node):
+            if isinstance(lp, (ast.For, ast.comprehension)) and isinstance(lp.iter, ast.Call) and norm(lp.iter.func) == "enumerate" and lp.iter.args \
+                    and isinstance(lp.iter.args[0], ast.Name) and lp.iter.args[0].id in f.params and isinstance(lp.target, ast.Tuple) and len(lp.target.elts) == 2 \
+                    and isinstance(lp.target.elts[1], ast.Name):
+                scope = lp if isinstance(lp, ast.For) else f.module.parent.get(lp)
+                if any(isinstance(y, ast.Attribute) and y.attr in ("inputs", "input_vars") and isinstance(y.value, ast.Name) and y.value.id == lp.target.elts[1].id for y in ast.walk(scope)):
+                    term_params.add(lp.iter.args[0].id)
         for d in ast.walk(f.node):
             keyed = None
             if isinstance(d, (ast.DictComp, ast.SetComp)) and isinstance(d.generators[0].iter, ast.Name) and d.generators[0].iter.id in term_seqs and isinstance(d.generators[0].target, ast.Name):
@@ -374,6 +396,17 @@ def run(prog: Program, col: Collector, tier: str, refs: Optional[Refs] = None, c
                         and isinstance(g.elt, ast.Tuple) and g.elt.elts and isinstance(g.elt.elts[0], ast.Name) and g.elt.elts[0].id == g.generators[0].target.id:
                     keyed = d
             if isinstance(d, ast.Call) and isinstance(d.func, ast.Attribute) and d.func.attr == "fromkeys" and d.args and isinstance(d.args[0], ast.Name) and d.args[0].id in term_seqs:
+                keyed = d
+            # a set / frozenset / dict built from elements of a term sequence (`set(terms[v] for v in …)`, `{t for t in terms}`)
+            if isinstance(d, ast.Call) and norm(d.func) in ("set", "frozenset", "dict", "OrderedDict", "dict.fromkeys", "OrderedDict.fromkeys") and d.args \
+                    and isinstance(d.args[0], (ast.ListComp, ast.GeneratorExp, ast.SetComp)):
+                g = d.args[0]
+                el = g.elt.elts[0] if isinstance(g.elt, ast.Tuple) and g.elt.elts else g.elt
+                if isinstance(el, ast.Subscript) and isinstance(el.value, ast.Name) and el.value.id in term_params:
+                    keyed = d
+                if isinstance(el, ast.Name) and any(isinstance(gg.iter, ast.Name) and gg.iter.id in term_params and isinstance(gg.target, ast.Name) and gg.target.id == el.id for gg in g.generators):
+                    keyed = d
+            if isinstance(d, ast.SetComp) and isinstance(d.elt, ast.Subscript) and isinstance(d.elt.value, ast.Name) and d.elt.value.id in term_params:
                 keyed = d
             if keyed is not None:
                 n9 += 1
